@@ -31,6 +31,12 @@ def clauses_c01(c, H):
         if it.raised:
             c.prove("C01.no-exception", False, info=dict(iteration=i, exc=it.raised))
             continue
+        # (2') an external done()/on_disable() that is not followed by another engage() stops the machine whatever was
+        # requested before it in the same loop: only the default state may run
+        if any_ext_stop(it) and (not eng or stop_after_engage(it)):
+            c.reach("external-stop-after-request")
+            c.prove("C01.2 stopped-only-default", all(x.kind == "default" for x in it.calls),
+                    info=dict(iteration=i, ext=it.ext, calls=[x.name for x in it.calls]))
         # (1) regular state invoked => engage() since the previous iteration
         for x in it.calls:
             if x.kind == "regular":
